@@ -6,6 +6,10 @@ pub(crate) mod internal;
 #[cfg(not(feature = "std-mutex"))]
 pub(crate) mod mutex;
 pub(crate) mod pointer;
+#[cfg(kanal_verif)]
+pub mod verif;
+#[cfg(kanal_verif)]
+use crate::verif::{core, std};
 
 mod error;
 #[cfg(feature = "async")]
